@@ -217,14 +217,14 @@ def run(c):
     if not quick:
         c.mc('Snapshot', mc_cfg(d=3, k=1), label='depth<=3, 1 tracepoint')
     c.mc_expect_violation('Snapshot', mc_cfg(shared=True, d=1, k=2, invs=['Independent']), 'deviation SharedTable', what='Independent')
-    sim = tlc.simulate('Snapshot', mc_cfg(d=3, k=2, cls=ALL_CLS), num=60 if quick else 1500, depth=12, seed=c.seed + 1)
+    sim = tlc.simulate('Snapshot', mc_cfg(d=3, k=2, cls=ALL_CLS), num=60 if quick else 10000, depth=12, seed=c.seed + 1)
     c.transitions += sim.generated
     replay_behaviours(c, sim.behaviours, wd, 's')
     # methods of objects whose truth value is False or cannot be taken (empty containers, array-likes)
-    sim = tlc.simulate('Snapshot', mc_cfg(d=2, k=1, cls=('E', 'H')), num=16 if quick else 300, depth=12, seed=c.seed + 2)
+    sim = tlc.simulate('Snapshot', mc_cfg(d=2, k=1, cls=('E', 'H')), num=16 if quick else 2000, depth=12, seed=c.seed + 2)
     c.transitions += sim.generated
     replay_behaviours(c, sim.behaviours, wd, 'e')
-    values_leg(c, rng, wd, 300 if quick else 6000)
+    values_leg(c, rng, wd, 300 if quick else 40000)
     scalar_watch_leg(c, wd)
 
 
